@@ -87,7 +87,9 @@ def gen_spec(rng, fmt='NETCDF4', big=0.0):
             v['attrs']['least_significant_digit'] = {'t': 'i4', 'v': rng.choice([1, 2, 3])}
         if dt != 'S1' and rng.random() < 0.35 and n > 0:
             v['mask'] = sorted(set(rng.randrange(n) for _ in range(rng.randrange(0, 4))))
-            v['fillkind'] = rng.choice(['fill_value', 'missing_value'])
+            # 'none': a masked array handed over as values without a fill keyword
+            # (the fill value is then the masked array's own)
+            v['fillkind'] = rng.choice(['fill_value', 'fill_value', 'missing_value', 'none'])
             if dt in ('f4', 'f8'):
                 v['fill'] = rng.choice([-999.0, -9999.0, 1e20, 9.96921e36, -1.5, 0.0])
             elif dt == 'i1':
@@ -203,11 +205,6 @@ def build_source(spec):
         tc = 'c' if v['dt'] == 'S1' else np.dtype(v['dt']).char
         if v.get('mask') is not None:
             fill = np.dtype(v['dt']).type(v['fill'])
-            kw[v['fillkind']] = fill
-        var = f.createVariable(v['name'], tc, tuple(v['dims']), **kw)
-        for k, x in v['attrs'].items():
-            setattr(var, k, _attr(x))
-        if v.get('mask') is not None:
             m = np.zeros(a.shape, dtype=bool)
             fl = m.reshape(-1)
             for i in v['mask']:
@@ -217,7 +214,16 @@ def build_source(spec):
             # unmasked, so it is masked in the source as well
             m |= (a == np.dtype(v['dt']).type(v['fill']))
             a = np.ma.masked_array(a, mask=m)
-        var[...] = a
+            if v['fillkind'] == 'none':
+                a.fill_value = fill
+                kw['values'] = a
+            else:
+                kw[v['fillkind']] = fill
+        var = f.createVariable(v['name'], tc, tuple(v['dims']), **kw)
+        for k, x in v['attrs'].items():
+            setattr(var, k, _attr(x))
+        if 'values' not in kw:
+            var[...] = a
     return f
 
 
@@ -306,7 +312,7 @@ def gen_op(rng, st):
                 'complevel': cl, 'file': 's%d.nc' % cid,
                 # the file handed to save(): the in-memory file itself, or the same
                 # content as a disk-backed file (written, closed, reopened)
-                'source': rng.choice(['mem', 'mem', 'mem', 'disk', 'lazy']),
+                'source': rng.choice(['mem', 'mem', 'mem', 'disk', 'lazy', 'wrap', 'wrap-disk']),
                 # lazily loaded sources: the n-th variable request fails once with
                 # an I/O error (None / beyond the last request: no fault)
                 'fault_at': rng.choice([None, rng.randrange(0, 14)])})
@@ -371,8 +377,7 @@ def compare(src, got, fmt):
                 dict(y, dtype=np.dtype(y['dtype']).newbyteorder('=').str)))))
         xa = {k: _norm_attr(v) for k, v in x['attrs'].items() if k != '_FillValue'}
         ya = {k: _norm_attr(v) for k, v in y['attrs'].items() if k != '_FillValue'}
-        if '_FillValue' in y['attrs'] and not any(
-                k in x['attrs'] for k in ('_FillValue', 'fill_value', 'missing_value')):
+        if '_FillValue' in y['attrs'] and x.get('nofill'):
             out.append(('varattr-names', '%s declares no fill value but comes back with '
                         '_FillValue=%r' % (vk, y['attrs']['_FillValue'])))
         if set(xa) != set(ya):
@@ -484,10 +489,13 @@ def apply(st, op):
         try:
             f = build_source(op['spec'])
             src = snapshot.snap_file(f)
+            for v in op['spec']['vars']:
+                # a variable that is not of the masked kind declares no fill value
+                src['vars'][v['name']]['nofill'] = v.get('mask') is None
         except BaseException as e:
             raise HarnessError('cannot build source: %r' % (e,))
         path = w.path(op['file'])
-        if op.get('source') == 'disk':
+        if op.get('source') in ('disk', 'wrap-disk'):
             try:
                 p0 = w.path('src_' + op['file'])
                 h0 = f.save(p0, format='NETCDF4' if op['fmt'] == 'NETCDF4' else op['fmt'], verbose=0)
@@ -498,6 +506,18 @@ def apply(st, op):
                 w.probe('source_is_disk_backed')
             except BaseException as e:
                 raise HarnessError('cannot make the disk-backed source: %r' % (e,))
+        if op.get('source') in ('wrap', 'wrap-disk'):
+            # the wrapper pncopen(..., addcf=True) returns: its variables / dimensions
+            # mappings hand out one-shot iterators
+            try:
+                from PseudoNetCDF.core._wrapnc import WrapPNC
+                f = WrapPNC(f)
+                w.probe('source_is_wrapped')
+            except BaseException as e:
+                # (the wrapper's constructor reads global attributes with getattr and
+                # fails on a disk file that has one named like netCDF4 internals:
+                # not part of save; the unwrapped source is used)
+                w.probe('source_wrapper_not_constructible')
         lazy = None
         if op.get('source') == 'lazy':
             f, lazy = lazy_source(f, op.get('fault_at'))
